@@ -56,14 +56,25 @@ def field_class(e):
 
 @check("C15")
 def c15(c):
+    quick = c.tier == "quick"
     c.small("MC_Mont", cfg="MC_Mont.cfg")
-    progs = c.generate("Gen_Field", env={"VERIF_PART": "field"})
-    files = c.drive("field", progs)
-    c.validate("Trace_Field", files)
-    c.count_classes(files, field_class)
-    c.sample_events(files, 3)
+    if not quick:
+        c.small("MC_Mont", cfg="MC_Mont3.cfg", timeout=7200)
+    exe = vlib.build_harness()
+    rounds = [("main", {"VERIF_PART": "field"})] + ([] if quick else [("band%d" % b, {"VERIF_PART": "field", "VERIF_BAND": b}) for b in range(8)])
+    for name, env in rounds:
+        progs = c.generate("Gen_Field", name="prog-" + name, env=env)
+        files = c.drive("field", progs, name="tr-" + name, shards=vlib.NCPU, binary=exe)
+        c.validate("Trace_Field", files, heap="3g", timeout=7200)
+        c.count_classes(files, field_class)
+        if name == "main":
+            c.sample_events(files, 3)
+        for f in files:
+            os.remove(f)
+    if not quick:
+        c.extra["complete_cross_product"] = "mul: all 7^4 x 7^4 = 5,764,801 pairs of limb-class words, in 8 bands; add/sub/div: 7^4 x 3^4 pairs"
     return c.finish(rule="one event per (operation, operand pair); operands: all 7^4 limb-class words of the raw Montgomery representation "
-                         "(per 64-bit limb one of 0,1,2^63,2^64-1,q_i-1,q_i,q_i+1) against diagonal/pivots/specials, 28 named boundary values, seeded random; "
+                         "(per 64-bit limb one of 0,1,2^63,2^64-1,q_i-1,q_i,q_i+1) against diagonal/pivots/specials (thorough: the complete cross product for mul), 28 named boundary values, seeded random; "
                          "every event carries the outputs of each code path (asm with ADX, asm without ADX, portable generic) and each receiver/operand aliasing; "
                          "distinct = distinct (op, x, y) triples", min_events=1000)
 
